@@ -33,17 +33,24 @@ type pend struct {
 }
 
 func (rn *runner) do(cfg config, seq []op, tie *lib.Tie, class string) {
-	obs := runSeqMon(rn.mon, cfg, seq)
-	key := cfg.line() + "\n"
-	for _, o := range seq {
-		key += o.line() + "\n"
+	var obs []stepObs
+	if cfg.foreign() {
+		// a record configured under a key it does not carry: outside the property's hypothesis, tie only
+		obs = runSeqMon(nil, cfg, seq)
+		tie.Count("foreign-key-configuration")
+	} else {
+		obs = runSeqMon(rn.mon, cfg, seq)
+		key := cfg.line() + "\n"
+		for _, o := range seq {
+			key += o.line() + "\n"
+		}
+		rn.mon.Eval(key, len(seq) > 1, map[string]any{"init": cfg, "ops": seq, "last": obs[len(obs)-1].Out})
+		rn.mon.Count("class:" + class)
+		if cfg.Active != nil || len(cfg.Modes) > 0 || len(cfg.Recs) > 0 {
+			rn.mon.Count("configured-initial-state")
+		}
+		monitorSeq(rn.mon, cfg, seq, obs)
 	}
-	rn.mon.Eval(key, len(seq) > 1, map[string]any{"init": cfg, "ops": seq, "last": obs[len(obs)-1].Out})
-	rn.mon.Count("class:" + class)
-	if cfg.Active != nil || len(cfg.Modes) > 0 {
-		rn.mon.Count("configured-initial-state")
-	}
-	monitorSeq(rn.mon, cfg, seq, obs)
 	for _, st := range obs {
 		tie.Count("op:" + st.Op.Kind)
 		r := st.Out
@@ -136,6 +143,7 @@ func baseAlphabet(a func(id string, normal bool) *mode) []op {
 		{Kind: "add", Mode: a("b", false)},
 		{Kind: "create", Mode: &mode{Title: "gen"}, Cands: tenCands()},
 		{Kind: "s.create", Mode: &mode{Title: "gen", Normal: true}, Cands: tenCands()},
+		{Kind: "s.create", NilMode: true, Cands: tenCands()}, // a CreateMode request without a mode
 		{Kind: "update", Mode: a("b", true)},
 		{Kind: "s.update", Mode: a("b", true), HasMask: true, Mask: []string{"normal"}},
 		{Kind: "update", Mode: &mode{ID: "a", Title: "x", Normal: true}, HasMask: true, Mask: []string{"title"}},
@@ -157,6 +165,10 @@ func baseAlphabet(a func(id string, normal bool) *mode) []op {
 		{Kind: "update", Mode: a("c", true), CreateIfAbsent: true},
 		{Kind: "update", Mode: &mode{ID: "b", Title: "up", Normal: true}, HasMask: true, Mask: []string{"title"}, CreateIfAbsent: true},
 		{Kind: "delete", ID: "b", Expected: a("b", false)},
+		// DeleteMode with the caller's check AND an expected value: on a stored mode the check is asked first (b is
+		// refused by the check although the expected value differs too), on an absent id neither is consulted
+		{Kind: "delete", ID: "b", Expected: a("b", true), Check: "ca"},
+		{Kind: "delete", ID: "c", AllowMissing: true, Expected: a("c", false), Check: "cn"},
 		// the caller's own code and a reset mask among the options (tame ones: options.go)
 		{Kind: "update", Mode: &mode{ID: "a", Title: "x", Normal: true, Desc: "d"}, HasReset: true, Reset: []string{"description", "normal"}, Before: "tp", After: "nk"},
 		{Kind: "update", Mode: a("b", true), HasMask: true, Mask: []string{"normal"}, Check: "cn"},
@@ -185,6 +197,16 @@ func untameProbes() [][]op {
 		{Kind: "update", Mode: a("a", false), After: "n1"},
 	} {
 		out = append(out, withNow(append(append([]op{}, prefix...), last)))
+		// … and what the code does afterwards (the keyed model follows): the record is reached under its KEY, the
+		// guards look at the id it carries
+		key := last.Mode.ID
+		out = append(out, withNow(append(append([]op{}, prefix...), last,
+			op{Kind: "find", ID: key}, op{Kind: "change", ID: key}, op{Kind: "delete", ID: key},
+			op{Kind: "add", Mode: a(key, false)}, op{Kind: "s.clear"})))
+		out = append(out, withNow(append(append([]op{}, prefix...), last,
+			op{Kind: "s.update", Mode: &mode{ID: key, Title: "again", Normal: true}}, op{Kind: "s.change", ID: "zz"},
+			op{Kind: "setactive", Mode: &mode{ID: key, Title: "set"}}, op{Kind: "delete", ID: "", AllowMissing: true},
+			op{Kind: "s.delete", ID: key}, op{Kind: "clear"})))
 	}
 	return out
 }
@@ -376,6 +398,9 @@ func genOp(r *rand.Rand, step int) op {
 	case 3:
 		return op{Kind: "create", Mode: genMode(r, ""), Cands: cands(), Now: now}
 	case 4:
+		if r.Intn(8) == 0 {
+			return op{Kind: "s.create", NilMode: true, Cands: cands(), Now: now} // a request without a mode
+		}
 		return op{Kind: "s.create", Mode: genMode(r, ""), Cands: cands(), Now: now}
 	case 5:
 		if r.Intn(3) == 0 {
@@ -392,12 +417,18 @@ func genOp(r *rand.Rand, step int) op {
 		if r.Intn(10) == 0 {
 			o.Mode.ID = ""
 		}
+		if r.Intn(20) == 0 {
+			o.NilMode = true // a request without a mode
+		}
 		genMask(r, &o)
 		return o
 	case 11, 12:
 		o := op{Kind: "delete", ID: id, AllowMissing: r.Intn(2) == 0, Now: now}
 		if r.Intn(4) == 0 {
 			o.Expected = genExpected(r, id)
+		}
+		if r.Intn(4) == 0 {
+			o.Check = checkNames[r.Intn(len(checkNames))]
 		}
 		return o
 	case 13, 14:
@@ -414,6 +445,7 @@ func genOp(r *rand.Rand, step int) op {
 		o := op{Kind: "s.change", ID: id, Now: now}
 		if r.Intn(10) == 0 {
 			o.ID = ""
+			o.NilMode = r.Intn(2) == 0 // no active_mode message at all
 		}
 		return o
 	case 20, 21:
@@ -442,6 +474,16 @@ func configuredStates() []config {
 	}
 }
 
+// keyedStates: initial records given through WithModeOption(resource.WithInitialRecord(key, mode)) - one with
+// every record under its id (what WithInitialMode does), one with a record under a key it does not carry (the
+// mode with id "a" under the key "c": tie only).
+func keyedStates() []config {
+	return []config{
+		{Recs: []keyed{{"b", mode{ID: "b", Title: "tb"}}, {"a", mode{ID: "a", Title: "ta", Normal: true}}}},
+		{Recs: []keyed{{"c", mode{ID: "a", Title: "ta", Normal: true}}, {"b", mode{ID: "b", Title: "tb"}}}},
+	}
+}
+
 // genConfig draws an initial state: mostly NewModel(), else up to three initial modes (at most one
 // normal) and a placeholder active mode whose id is "", a fresh id, or the id of a (future) mode.
 func genConfig(r *rand.Rand) config {
@@ -463,6 +505,25 @@ func genConfig(r *rand.Rand) config {
 	if r.Intn(4) != 0 {
 		p := genMode(r, []string{"", "boot", "a", "b", "c"}[r.Intn(5)])
 		cfg.Active = p
+	}
+	// now and then the records are given directly (WithInitialRecord), half of these with one record under a key it
+	// does not carry (tie only) or a key configured twice (panic)
+	if n > 0 && r.Intn(5) == 0 {
+		for _, m := range cfg.Modes {
+			cfg.Recs = append(cfg.Recs, keyed{Key: m.ID, Mode: m})
+		}
+		cfg.Modes = nil
+		switch r.Intn(4) {
+		case 0:
+			cfg.Recs[r.Intn(n)].Key = []string{"k", "zz", ""}[r.Intn(3)]
+		case 1:
+			cfg.Recs[r.Intn(n)].Mode.ID = []string{"", "zz", "a"}[r.Intn(3)]
+		case 2:
+			if r.Intn(3) == 0 {
+				cfg.Recs = append(cfg.Recs, keyed{Key: cfg.Recs[0].Key, Mode: mode{ID: "dup"}})
+			}
+		}
+		return cfg
 	}
 	// now and then a configuration the options reject: an id configured twice, a mode without id
 	if n > 0 && r.Intn(10) == 0 {
@@ -731,16 +792,16 @@ func main() {
 	rn := &runner{f: f}
 	exLen := f.N(3, 4)
 	ex := res.Tie("electric-exhaustive", "K2",
-		fmt.Sprintf("ALL operation sequences of length <= %d over a 34-operation alphabet (Model API and both servers; add/create/update with and without masks/delete with and without allow-missing/change/clear/set-active/find over mode ids a, b, c, one generated id, UpdateMode as an upsert (WithCreateIfAbsent, with and without a mask that leaves the id out) and DeleteMode with WithExpectedValue, UpdateMode with the caller's own code among its options (WithResetMask over other fields than id, WithExpectedCheck, InterceptBefore / InterceptAfter from a named family shared with the driver), and the placeholder active mode's own id — \"\" by default — for every Model-API operation that takes an id) on NewModel(), and all sequences of length <= %d from three configured initial states (WithInitialMode + WithInitialActiveMode: placeholder naming no mode / a copy of an initial mode / the id of a mode added later); after every step the result and the whole observable state (sorted modes, active mode, normal mode) and the events delivered to PullModes / PullActiveMode subscribers are compared with the Lean model; plus the construction itself for the accepted configurations and for three rejected ones (id configured twice, mode without id: panic in model and code); distinct = distinct (initial state, operation prefix)", exLen, exLen-1))
+		fmt.Sprintf("ALL operation sequences of length <= %d over a 37-operation alphabet (Model API and both servers; add/create/update with and without masks/delete with and without allow-missing/change/clear/set-active/find over mode ids a, b, c, one generated id, UpdateMode as an upsert (WithCreateIfAbsent, with and without a mask that leaves the id out) and DeleteMode with WithExpectedValue / WithExpectedCheck (stored and absent ids), UpdateMode with the caller's own code among its options (WithResetMask over other fields than id, WithExpectedCheck, InterceptBefore / InterceptAfter from a named family shared with the driver), and the placeholder active mode's own id — \"\" by default — for every Model-API operation that takes an id) on NewModel(), and all sequences of length <= %d from three configured initial states (WithInitialMode + WithInitialActiveMode: placeholder naming no mode / a copy of an initial mode / the id of a mode added later); after every step the result and the whole observable state (sorted modes, active mode, normal mode) and the events delivered to PullModes / PullActiveMode subscribers are compared with the Lean model; plus the construction itself for the accepted configurations and for three rejected ones (id configured twice, mode without id: panic in model and code); distinct = distinct (initial state, operation prefix)", exLen, exLen-1))
 	ex.Exhaustive = true
 	tie := res.Tie("electric-random", "K1",
-		"random operation sequences (length 1-40) from one PRNG, 40% of them from a random InitOk configuration (0-3 initial modes, placeholder active mode with id \"\"/fresh/existing/future), over 8 ids incl. ids the scripted RNG will generate plus \"\" and the placeholder's id as arguments, random masks (nil, empty, subsets of id/title/normal/start_time/description/voltage/segments, unknown path), Model-level write options on UpdateMode / DeleteMode (WithCreateIfAbsent, WithExpectAbsent, WithExpectedValue with blank / plausible / random values; WithResetMask over random paths incl. an unknown one, WithExpectedCheck, InterceptBefore / InterceptAfter with the four tame named callbacks; in 1 of 8 sequences the LAST operation is an UpdateMode with exactly one option outside the theorems' hypothesis WOpts.Tame - reset mask naming id, a callback renaming the record or raising normal - plus ten fixed probes of that kind: the model follows the code there too, the record being stored under the call's key), rejected configurations (construction panics), both API levels, documented contract panics, id-generation retries and exhaustion; every step's result, whole observable state and stream events compared with the Lean model; distinct = distinct operation prefix")
+		"random operation sequences (length 1-40) from one PRNG, 40% of them from a random InitOk configuration (0-3 initial modes, placeholder active mode with id \"\"/fresh/existing/future), over 8 ids incl. ids the scripted RNG will generate plus \"\" and the placeholder's id as arguments, random masks (nil, empty, subsets of id/title/normal/start_time/description/voltage/segments, unknown path), Model-level write options on UpdateMode / DeleteMode (WithCreateIfAbsent, WithExpectAbsent, WithExpectedValue with blank / plausible / random values, WithExpectedCheck with four named checks on both; WithResetMask over random paths incl. an unknown one, WithExpectedCheck, InterceptBefore / InterceptAfter with the four tame named callbacks; in 1 of 8 sequences the LAST operation is an UpdateMode with exactly one option outside the theorems' hypothesis WOpts.Tame - reset mask naming id, a callback renaming the record or raising normal - plus ten fixed probes of that kind: the model follows the code there too, the record being stored under the call's key), rejected configurations (construction panics), both API levels, documented contract panics, id-generation retries and exhaustion; every step's result, whole observable state and stream events compared with the Lean model; distinct = distinct operation prefix")
 	rn.mon = res.Monitor("electric-invariants",
 		"after EVERY step of every sequence on the real model, with plain Go bookkeeping as oracle: I1 at most one normal mode; I2 a delete of the active id fails and keeps the mode, and a delete of the id under which the active mode was last selected never succeeds; I3 once changed the active id is in modes; clear selects the normal mode / NotFound; a successful switch to a different id stamps start_time = clock now; delete of an absent id = NotFound, or OK with allow-missing; a failed operation changes nothing; every listed mode is found by a lookup of the id it carries (C19/key/…); no panic other than the two documented contract panics; an UpdateMode whose options are outside WOpts.Tame is reported under a qualified operation name (update[reset-id], update[intercept-id], update[intercept-normal]); PullModes / PullActiveMode followed from the model's creation: every expected event arrives, the subscriber's folded view has at most one normal mode after every event and equals Modes() at every operation boundary, an active-mode event is the active mode and names a stored mode; non-trivial = more than one step")
 	stress := res.Monitor("electric-stress",
 		"2-4 goroutines issue 5-24 random operations each on one shared model (Model API and servers mixed); I1 and I3 evaluated at quiescence, no panic; one evaluation = one round")
 	k4 := res.Tie("electric-forced-overlap", "K4",
-		"forced overlaps: a ChangeActiveMode is parked inside Model.mu through the injected clock, 2-4 calls (same RPC on the same id with and without allow-missing, racing normal flags via create/update/upsert/add, deletes of the mode being switched to, mixed) are issued concurrently and observed blocked on the model's locks (goroutine dump), then all are released; stamp rounds (1 in 4) are the dual: a write to the mode list (create/add/update/delete) is parked inside the lock, 1-3 switches of the active mode (ChangeActiveMode, UpdateActiveMode, ChangeToNormalMode, ClearActiveMode, now and then with a delete/update of a target) queue behind it, the model clock is advanced while they wait and the old active mode is observed at the new instant, then the parked call is released - the serial order is performed at the advanced instant; the observed per-call outcomes + final state are matched to a serial order and that order is executed by the Lean model (C19_mutex_serialises: every execution equals some serial run); distinct = (class, prefix, gate, queued)")
+		"forced overlaps: a ChangeActiveMode is parked inside Model.mu through the injected clock, 2-4 calls (same RPC on the same id with and without allow-missing, racing normal flags via create/update/upsert/add, deletes of the mode being switched to, mixed) are issued concurrently and observed blocked on the model's locks (goroutine dump), then all are released; stamp rounds (1 in 4) are the dual: a write to the mode list (create/add/update/delete) is parked inside the lock, 1-3 switches of the active mode (ChangeActiveMode, UpdateActiveMode, ChangeToNormalMode, ClearActiveMode, now and then with a delete/update of a target) queue behind it, the model clock is advanced while they wait and the old active mode is observed at the new instant, then the parked call is released - the serial order is performed at the advanced instant; parked-write rounds (about 1 in 4): a DeleteMode is parked in its own WithExpectedCheck callback, i.e. after deleteMode's active-mode guard and before the removal, while 1-3 calls switch to / set active / clear to / rewrite / delete the same mode, or an UpdateMode / upsert that makes a mode normal is parked there, i.e. after updateMode's second-normal-mode guard and before the write, while 1-3 calls try to make another mode normal, delete the target or clear to the normal mode; the observed per-call outcomes + final state are matched to a serial order and that order is executed by the Lean model (C19_mutex_serialises: every execution equals some serial run); distinct = (class, prefix, gate, queued)")
 	serial := res.Monitor("electric-serialisable",
 		"per forced-overlap round on the real code: every call's outcome and the final state must equal those of SOME serial order of the calls (oracle: the same calls run sequentially on a fresh real model, all permutations tried); a delete with allow-missing must never report NotFound; in stamp rounds the start time returned by a switch that waited for the lock is the clock's time at the switch (the advanced instant; or the stored start time when the mode was already active), never the instant at which the call started to queue; no panic, no stuck call; one evaluation = one round, non-trivial = the queued calls were observed blocked behind the parked one")
 	if f.Driver != "" {
@@ -762,12 +823,14 @@ func main() {
 	// small first: the first violating input per signature is kept as the replay
 	rn.exhaustive(config{}, ex, 1)
 	rn.exhaustive(config{}, ex, 2)
-	for _, cfg := range configuredStates() {
+	for _, cfg := range append(configuredStates(), keyedStates()...) {
 		rn.exhaustive(cfg, ex, 1)
 		rn.exhaustive(cfg, ex, 2)
 	}
 	// initial-record options: what the construction rejects (panic) and accepts
-	for _, cfg := range append(configuredStates(),
+	for _, cfg := range append(append(configuredStates(), keyedStates()...),
+		config{Recs: []keyed{{"a", mode{ID: "a"}}, {"b", mode{ID: "x"}}, {"a", mode{ID: "y"}}}},
+		config{Recs: []keyed{{"", mode{ID: "", Title: "no key, no id"}}}},
 		config{Modes: []mode{{ID: "a", Title: "ta"}, {ID: "b", Title: "tb"}, {ID: "a", Title: "again"}}},
 		config{Modes: []mode{{ID: "a", Title: "ta"}, {ID: "", Title: "no id"}}},
 		config{Modes: []mode{{ID: "", Title: "no id"}}, Active: &mode{ID: "a"}}) {
@@ -781,7 +844,7 @@ func main() {
 	}
 	if exLen >= 4 {
 		rn.exhaustive(config{}, ex, 4)
-		for _, cfg := range configuredStates() {
+		for _, cfg := range append(configuredStates(), keyedStates()...) {
 			rn.exhaustive(cfg, ex, 3)
 		}
 	}
@@ -802,8 +865,13 @@ func main() {
 			seq[j] = genOpCfg(r, j, cfg)
 		}
 		if r.Intn(8) == 0 {
-			// the last operation carries one option outside the theorems' hypothesis (see untameProbes)
-			seq[n-1] = genUntame(r, idPool[r.Intn(4)], seq[n-1].Now)
+			// one operation (the last one, or one in the middle with the rest of the sequence following by key)
+			// carries one option outside the theorems' hypothesis (see untameProbes)
+			j := n - 1
+			if r.Intn(2) == 0 {
+				j = r.Intn(n)
+			}
+			seq[j] = genUntame(r, idPool[r.Intn(4)], seq[j].Now)
 		}
 		rn.do(cfg, seq, tie, "random")
 	}
